@@ -410,6 +410,47 @@ def run_quaternion(ctx: Ctx) -> None:
         raise AnalysisError(f"T7 matrix->quaternion: {e}")
 
 
+def run_quaternion_log(ctx: Ctx) -> None:
+    """quaternion_exp_to_log / quaternion_log_to_exp on unit quaternions with rational components (both signs of the scalar part)."""
+    prog = ctx.prog
+    K = "deepali.core._kornia"
+    fL, fE = prog.func(K, "quaternion_exp_to_log"), prog.func(K, "quaternion_log_to_exp")
+    ctx.fn(fL)
+    ctx.fn(fE)
+    ctx.rule("T7.quat-log-exp", "for unit quaternions (w, v) with rational components and rational |v|, scalar part positive, zero and "
+                                "negative: quaternion_exp_to_log(q) = v acos(w) / |v| (the half rotation angle along the axis, in (0, pi]) and "
+                                "quaternion_log_to_exp(quaternion_exp_to_log(q)) = q — as identities with cos(acos w) = w, "
+                                "sin(acos w) = sqrt(1 - w^2)")
+    ax = [Fraction(2, 7), Fraction(3, 7), Fraction(6, 7)]
+    quats = [(Fraction(3, 5), Fraction(4, 5)), (Fraction(-3, 5), Fraction(4, 5)), (Fraction(0), Fraction(1)), (Fraction(-5, 13), Fraction(12, 13)),
+             (Fraction(12, 13), Fraction(-5, 13)), (Fraction(-4, 5), Fraction(-3, 5))]
+    for w, a in quats:
+        def th(w=w, a=a):
+            reset_relations()
+            fresh_facts()
+            it = make_interp(ctx)
+            v = [a * x for x in ax]
+            q = STensor.from_flat([w] + v, [1, 4])
+            lg = it.call(fL, q)
+            import math
+            na = abs(a)
+            if tuple(lg.shape) != (1, 3):
+                return False, f"log has shape {tuple(lg.shape)}"
+            for k in range(3):
+                got = symt.numeric_value(lg[0, k].flat()[0])
+                want = float(v[k]) * math.acos(float(w)) / float(na)
+                if got is None:
+                    raise AnalysisError(f"quaternion log component is not a constant expression: {lg[0, k].flat()[0]}")
+                if abs(got - want) > 1e-9:
+                    return False, (f"log of (w={w}, |v|={na}): component {k} = {tstr(lg[0, k])[:60]} ~ {got:.6f}, expected "
+                                   f"v_k acos(w)/|v| ~ {want:.6f} (half rotation angle acos(w) = {math.acos(float(w)):.6f})")
+            back = it.call(fE, lg)
+            if tuple(back.shape) != (1, 4) or not teq(back, q):
+                return False, f"exp(log(q)) = {tstr(back)[:100]} differs from q = {tstr(q)[:60]} (w = {w})"
+            return True, ""
+        _guard(ctx, "T7.quat-log-exp", f"w={w},|v|={abs(a)},sign={'+' if a > 0 else '-'}", fL, f"unit quaternion w={w} a={a}", th)
+
+
 # --------------------------------------------------------------------------- T8 parameter getters / setters of the rotation-like transforms
 def run_accessors(ctx: Ctx) -> None:
     """spatial/linear.py: squashing re-parameterisations and their inverses (C08, last mechanism)."""
